@@ -60,7 +60,7 @@ class TimerSpec(Spec):
 
     def __init__(self, cfg, tier):
         super().__init__(cfg, tier)
-        self.time_budget = 30 if tier == "quick" else 600
+        self.time_budget = 150 if tier == "quick" else 800
         self.tables = reference_tables(cfg["clock"])
         self.speeds = cfg["speeds"]
         self.nif = cfg["interfaces"]
